@@ -288,9 +288,61 @@ var ProfileC08 = &Profile{
 	},
 }
 
+// c09ExtraOps: "the pool always holds at least the custody it has recorded" under pressure. When positions hold a
+// sizeable part of a reserve in custody, two users ask – in the same block – for swaps that each take a little more than
+// half of what the pool holds beyond that custody. Each is acceptable alone; executed one after the other at the end of
+// the block the second would dig into the custody and has to fail as a whole.
+func c09ExtraOps(h *History, g *G) []*Op {
+	if g.Int("c09/squeeze?", 0, 3) != 0 {
+		return nil
+	}
+	s := g.S
+	for _, pp := range s.PerpPools {
+		amm := s.Pool(pp.AmmPoolId)
+		if amm == nil || len(amm.PoolAssets) != 2 {
+			continue
+		}
+		for i, a := range amm.PoolAssets {
+			custody := sdkmath.ZeroInt()
+			for _, side := range [][]perptypes.PoolAsset{pp.PoolAssetsLong, pp.PoolAssetsShort} {
+				for _, pa := range side {
+					if pa.AssetDenom == a.Token.Denom {
+						custody = custody.Add(pa.Custody)
+					}
+				}
+			}
+			free := a.Token.Amount.Sub(custody)
+			if !custody.IsPositive() || !free.IsPositive() || custody.MulRaw(200).LT(a.Token.Amount) {
+				continue
+			}
+			h.Labels["c09-squeeze-scenarios"]++
+			other := amm.PoolAssets[1-i].Token
+			var ops []*Op
+			pct := int64(g.Int("c09/squeezepct", 51, 60))
+			for k := 0; k < 2; k++ {
+				u := g.User()
+				if g.Busy[u.Addr.String()] {
+					return ops
+				}
+				g.Busy[u.Addr.String()] = true
+				// the first takes 51-60 % of the free part; the second what is then left of it plus a slice of the custody
+				want := free.MulRaw(pct).QuoRaw(100)
+				if k == 1 {
+					want = free.Sub(want).Add(custody.MulRaw(int64(g.Int("c09/squeezedig", 5, 90))).QuoRaw(100))
+				}
+				ops = append(ops, &Op{Signer: u, Kind: "c09.squeeze_swap", Msg: &ammtypes.MsgSwapExactAmountOut{
+					Sender: u.Addr.String(), Routes: []ammtypes.SwapAmountOutRoute{{PoolId: amm.PoolId, TokenInDenom: other.Denom}},
+					TokenOut: sdk.NewCoin(a.Token.Denom, want), TokenInMaxAmount: other.Amount.MulRaw(1000), Recipient: u.Addr.String()}})
+			}
+			return ops
+		}
+	}
+	return nil
+}
+
 var ProfileC09 = &Profile{
 	MultiMsg: true,
-	ID:       "C09", Name: "perpetual", MinBlocks: 5, MaxBlocks: 40, MaxTxs: 5, Spec: specDefault, Check: combine(CheckC09), PreBlock: govModules("perpetual", "amm"),
+	ID:       "C09", Name: "perpetual", MinBlocks: 5, MaxBlocks: 40, MaxTxs: 5, Spec: specDefault, Check: combine(CheckC09), PreBlock: govModules("perpetual", "amm"), ExtraOps: c09ExtraOps,
 	Weights: map[string]int{"perpetual.open": 18, "perpetual.close": 10, "perpetual.close_positions": 6, "perpetual.update_stop_loss": 3, "perpetual.update_take_profit": 3,
 		"oracle.feed_price": 10, "amm.swap_in": 5, "amm.swap_out": 3, "amm.join": 3, "amm.exit": 3, "stablestake.bond": 1,
 		// positions also come into being and end through tradeshield's limit orders, executed by a third party
